@@ -56,3 +56,7 @@ Definition kagrees (c : cmp) (k : kcase) : bool :=
   && Bool.eqb (accept (ko_info r2)) (ki_moved k)
   && Nat.eqb (ko_mstate r2) (ki_sel k)
   && ko_kstate r2 && ki_ks k.
+
+(* the support library of the source tie (tools/py2gallina_c05.py, harness/lv/c05_tie.py) is required here only so
+   that the targeted build of the check compiles it; nothing above uses it *)
+From LV Require Goose.GenC05Tie.
